@@ -18,7 +18,7 @@ func living(kind string) bool { return kind == "nodate" || kind == "recent" || k
 func mk(prefix string, c byte, i int) string { return fmt.Sprintf("%sq%c%02d", prefix, c, i) }
 
 func person(rng *rand.Rand, i int, pre string) Person {
-	first := []string{"A", "B", "M", "Z"}[rng.Intn(4)]
+	first := []string{"A", "B", "M", "Z", "A", "M", "9", "("}[rng.Intn(8)] // also surnames that are indexed under "symbol"
 	p := Person{P: fmt.Sprintf("I%d", i), Kind: kinds[rng.Intn(len(kinds))], Given: mk(pre+"G", 'g', i), Sur: mk(pre+first, 's', i), AltG: []string{}, AltS: []string{},
 		Sex: []string{"M", "F", ""}[rng.Intn(3)], Day: rng.Intn(3), Lines: []string{}}
 	if rng.Intn(3) == 0 {
@@ -113,6 +113,9 @@ func twinOf(d Doc) Doc {
 			continue
 		}
 		p.Given, p.Sur, p.Nick, p.BPlac, p.RPlac, p.DPlac, p.Note, p.Occu = re(p.Given), re(p.Sur), re(p.Nick), re(p.BPlac), re(p.RPlac), re(p.DPlac), re(p.Note), re(p.Occu)
+		if p.Sur == "" && p.Given != "" && i%2 == 0 { // somebody without a surname has one in the twin (another index letter)
+			p.Sur = fmt.Sprintf("Yqs%02dy", i)
+		}
 		for k := range p.AltG {
 			p.AltG[k], p.AltS[k] = re(p.AltG[k]), re(p.AltS[k])
 		}
